@@ -137,6 +137,12 @@ try {
     ca.add_option("verbose", 'v', no_arg);
     ca.add_option("debug", 'D', req_arg);
     ca.parse(argc, argv);
+    if (ca.m.count('?') || ca.m.count(':')) {
+        // getopt has already said what is wrong; do not go on with different options / arguments than the ones given
+        // (an argument such as -1 is taken for an option: put -- in front of the arguments, or write it as 0x81)
+        fprintf(stderr, "see %s -h for the options\n", argv[0]);
+        return 1;
+    }
     quiet = ca.m.count('q') || pipe_in || pipe_out;
 
     btcdeb_verbose = verbose = ca.m.count('v');
